@@ -3,9 +3,11 @@ from concurrent.futures import ThreadPoolExecutor
 
 ROOT = os.path.normpath(os.path.join(os.path.dirname(os.path.abspath(__file__)), ".."))
 COQ = os.path.join(ROOT, "coq")
-BUILD = os.path.join(ROOT, "build")
 HARNESS = os.path.join(ROOT, "harness")
 REPO = os.environ.get("VERIF_REPO", "/repo")   # scratch worktrees of /repo can be checked without touching /repo
+# a scratch tree gets its own build directory (harness binary, run dirs), so that checks against /repo and
+# against scratch trees can run at the same time
+BUILD = os.path.join(ROOT, "build") if REPO == "/repo" else os.path.join(ROOT, "build", "alt-" + hashlib.sha1(REPO.encode()).hexdigest()[:8])
 D2H = os.path.join(BUILD, "d2h")
 
 GOENV = dict(os.environ, GOFLAGS="-mod=mod", GOPROXY="off", CGO_ENABLED="0",
@@ -25,7 +27,9 @@ def log(*a):
 class Lock:
     def __init__(self, name):
         os.makedirs(BUILD, exist_ok=True)
-        self.path = os.path.join(BUILD, name + ".lock")
+        # the Coq tree (coq/Gen, .vo files) is shared by all build dirs: its lock is global
+        d = os.path.join(ROOT, "build") if name in ("coq", "coqchk") else BUILD
+        self.path = os.path.join(d, name + ".lock")
 
     def __enter__(self):
         self.f = open(self.path, "w")
@@ -297,6 +301,8 @@ def main(argv):
     t0 = time.time()
     md = meta(pid)
     ev_path = os.path.join(ROOT, "evidence", pid + ".json")
+    if REPO != "/repo":
+        ev_path = os.path.join(BUILD, "evidence", pid + ".json")   # scratch-tree runs never touch committed evidence
     problems = []     # things that mean "no longer shown to hold" without an input (proof / build / corr)
     violations = []   # (kind, case index, case, codes, seed)
 
